@@ -175,8 +175,10 @@ pub enum Act {
 pub const N_NAMED_CFGS: usize = 5;
 pub const GRID_RTO: [u64; 6] = [1, 37, 499, 500, 3000, 60_000];
 pub const GRID_LAST: [u64; 4] = [0, 1, 7777, 60_000];
+/// Configurations with more retransmissions than the grid's 0..=8 (the statement puts no bound on them).
+pub const EXTRA_CFGS: [(u64, u32, u64); 8] = [(100, 9, 1600), (100, 10, 1600), (1, 12, 0), (37, 16, 7777), (500, 9, 500), (3, 20, 60_000), (1, 31, 1), (250, 11, 0)];
 pub fn n_cfgs() -> usize {
-    N_NAMED_CFGS + GRID_RTO.len() * 9 * GRID_LAST.len()
+    N_NAMED_CFGS + GRID_RTO.len() * 9 * GRID_LAST.len() + EXTRA_CFGS.len()
 }
 pub fn cfg(i: u8) -> (u64, u32, u64) {
     const NAMED: [(u64, u32, u64); 5] = [(1, 0, 0), (7, 3, 0), (500, 1, 300), (1000, 2, 10_000), (60_000, 8, 60_000)];
@@ -185,6 +187,9 @@ pub fn cfg(i: u8) -> (u64, u32, u64) {
         return NAMED[i];
     }
     let j = i - N_NAMED_CFGS;
+    if j >= GRID_RTO.len() * 9 * GRID_LAST.len() {
+        return EXTRA_CFGS[j - GRID_RTO.len() * 9 * GRID_LAST.len()];
+    }
     let last = GRID_LAST[j % GRID_LAST.len()];
     let n = (j / GRID_LAST.len()) % 9;
     let rto = GRID_RTO[j / (GRID_LAST.len() * 9)];
@@ -203,7 +208,10 @@ pub struct Step {
 /// shape 2: more attributes than any inline capacity of the builder before the sealing attributes
 pub const MANY_ATTRS: usize = 18;
 
+/// (the high nibble of `shape` says how the builder reaches `send`: 0 as built, 1 through into_owned(),
+/// 2 through clone(), 3 through clone_from() into a builder that held other things - the bytes are the same)
 pub fn request_wire(id: u8, seal: Seal, shape: u8) -> Vec<u8> {
+    let shape = shape & 0x0F;
     let mut b = wire::encode_header(0, 1, tid(id), 0);
     if shape == 1 {
         wire::append_raw(&mut b, 0x8022, b"vcheck");
@@ -237,6 +245,13 @@ pub fn other_wire(kind: u8) -> Vec<u8> {
     if kind == DATA_KIND {
         return DATA_PAYLOAD.to_vec();
     }
+    // kinds 4 / 5: a success / an error response that answers the request which `Act::Incoming` delivers
+    // when no request of our own is outstanding (transaction id tid(3)), with different contents
+    if kind == 4 || kind == 5 {
+        let mut b = wire::encode_header(kind - 2, 1, tid(3), 0);
+        wire::append_raw(&mut b, 0x8022, if kind == 4 { b"answer one" } else { b"the other answer" });
+        return b;
+    }
     let mut b = wire::encode_header(kind, 1, tid(3) ^ 0x5555, 0);
     wire::append_raw(&mut b, 0x8022, b"oth");
     b
@@ -248,10 +263,18 @@ pub fn other_wire(kind: u8) -> Vec<u8> {
 /// Nonce with REALM and NONCE, 6 = 300 Try Alternate with ALTERNATE-SERVER, 7 = success with
 /// XOR-MAPPED-ADDRESS, 8 = 420 Unknown Attribute with UNKNOWN-ATTRIBUTES, 9 / 10 = success / 500 with comprehension-required attributes unknown to the library.  What a response says
 /// never changes what the agent does with it.
-pub const RESP_FLAVOURS: [u8; 7] = [4, 5, 6, 7, 8, 9, 10];
+/// 11 / 12 / 13 = a success response of method 0x003, an error response of method 0xFFF, a success response
+/// of method 0x002 - under the id of a Binding request (the agent matches responses by transaction id).
+pub const RESP_FLAVOURS: [u8; 10] = [4, 5, 6, 7, 8, 9, 10, 11, 12, 13];
 pub fn response_wire(id: u8, class: u8, auth: Auth) -> Vec<u8> {
-    let wire_class = if class == 2 || class == 7 || class == 9 { 2 } else { 3 };
-    let mut b = wire::encode_header(wire_class, 1, tid(id), 0);
+    let wire_class = if matches!(class, 2 | 7 | 9 | 11 | 13) { 2 } else { 3 };
+    let method = match class {
+        11 => 0x003,
+        12 => 0xFFF,
+        13 => 0x002,
+        _ => 1,
+    };
+    let mut b = wire::encode_header(wire_class, method, tid(id), 0);
     let err = |b: &mut Vec<u8>, code: u16, reason: &str| {
         let mut v = vec![0, 0, (code / 100) as u8, (code % 100) as u8];
         v.extend_from_slice(reason.as_bytes());
@@ -486,6 +509,8 @@ impl Real {
         let now = self.at(step.now);
         match step.act {
             Act::Send { id, dest, seal, shape } => {
+                let provenance = shape >> 4;
+                let shape = shape & 0x0F;
                 let sw = Software::new("vcheck").unwrap();
                 let mut b = Message::builder(MessageType::from_class_method(MessageClass::Request, BINDING), tid(id).into());
                 if shape == 1 {
@@ -510,6 +535,18 @@ impl Real {
                 if shape == 1 {
                     b.add_fingerprint().unwrap();
                 }
+                let b = match provenance {
+                    1 => b.into_owned(),
+                    2 => b.clone(),
+                    3 => {
+                        let mut other = Message::builder(MessageType::from_class_method(MessageClass::Indication, 0x0FF), (tid(id) ^ 0x3333).into());
+                        let _ = other.add_raw_attribute(RawAttribute::new(AttributeType::new(0xC0F0), b"other").into_owned());
+                        let _ = other.add_fingerprint();
+                        other.clone_from(&b);
+                        other
+                    }
+                    _ => b,
+                };
                 match self.agent.send(b, peer(dest), now) {
                     Ok(t) => sent_obs(t, false),
                     Err(e) => Obs::SendRefused(format!("{e:?}")),
@@ -520,13 +557,19 @@ impl Real {
                 sent_obs(t, false)
             }
             Act::SendOther { kind, dest } => {
-                let sw = Software::new("oth").unwrap();
+                let sw = Software::new(match kind {
+                    4 => "answer one",
+                    5 => "the other answer",
+                    _ => "oth",
+                })
+                .unwrap();
                 let class = match kind {
                     1 => MessageClass::Indication,
-                    2 => MessageClass::Success,
+                    2 | 4 => MessageClass::Success,
                     _ => MessageClass::Error,
                 };
-                let mut b = Message::builder(MessageType::from_class_method(class, BINDING), (tid(3) ^ 0x5555).into());
+                let idv = if kind >= 4 { tid(3) } else { tid(3) ^ 0x5555 };
+                let mut b = Message::builder(MessageType::from_class_method(class, BINDING), idv.into());
                 b.add_attribute(&sw).unwrap();
                 match self.agent.send(b, peer(dest), now) {
                     Ok(t) => sent_obs(t, false),
